@@ -249,7 +249,10 @@ func (cr *c06Runner) query(q c06Query) string {
 	}
 	switch kind {
 	case "grid":
-		rq.Vec = append([]float32(nil), q.Vec[:dim]...)
+		rq.Vec = make([]float32, dim)
+		for i := range rq.Vec {
+			rq.Vec[i] = q.Vec[i%len(q.Vec)] // the grid repeats when the index is wider than the drawn grid
+		}
 	case "zero":
 		rq.Vec = make([]float32, dim)
 	case "none":
@@ -262,7 +265,7 @@ func (cr *c06Runner) query(q c06Query) string {
 		rq.Vec = append([]float32(nil), vd.Vector...)
 		if kind == "near" {
 			for i := range rq.Vec {
-				rq.Vec[i] += q.Vec[i] * 0.125
+				rq.Vec[i] += q.Vec[i%len(q.Vec)] * 0.125
 			}
 		}
 	}
